@@ -36,6 +36,13 @@ func (c08) Gen(tier string, seed int64, emit0 func([]Ev)) {
 func c08Item(r *rand.Rand, sel int, tier string) Ev {
 	s := rndSig(r)
 	switch sel {
+	case 7:
+		// the section ends in 0xFF bytes and its CRC_32 is all ones, all zeros or stuffing- / sync-like
+		t := s
+		t.Descs = append([]absSDesc(nil), s.Descs...)
+		if ffTailSig(r, &t) {
+			s = t
+		}
 	case 19:
 		// sections longer than 1023 bytes (section_length is a 12-bit field, up to 4093):
 		// several descriptors with long UPIDs, or a component splice with many components
